@@ -162,6 +162,7 @@ def ackLoop : Nat → State → Nat → R State
 
 /-- `acknowledge(receiver_base_id)`. -/
 def acknowledge (s : State) (rb : Nat) : R State :=
+  if rb % 2^32 % PACKET_ID_SPAN ≠ rb then .ok s else     -- `!packet_id::is_valid(..)`
   let delta := pidSub rb s.baseId
   let span := pidSub s.nextId s.baseId
   if delta > span then .ok s else
